@@ -13,6 +13,30 @@ CHECKS = {
    text="Same specification and traces as C18; the C19 clauses (no silent loss, eviction only of non-ready transactions, pending work reported, pending nonce exact) are invariants of the model (TLC, exhaustive within bounds) and are evaluated by TLC on every observed state of every real trace.",
    note="trusted: TLC, harness decoding, hook; age eviction exercised through real-time gaps between arrival groups (unreliable timings are discarded, never judged)",
    technique="TLA+ spec + TLC exhaustive MC; TLC-generated behaviours replayed on the real pool; TLC trace validation"),
+ "C13": dict(engine="StateLedger", design_ref="DESIGN.md §3.2, §5 C13",
+   text="StateLedger.tla holds a layered model of the state ledger (dirty set, per-block origin cache, account cache, database, state changer, block journals) and a flat property-level ghost; TLC checks exhaustively within small bounds that every possible read, prefix query, revert and rollback of the layered model answers like the ghost. The real SimpleLedger on leveldb is driven by seeded op plans (transaction-shaped snapshot/write/revert/finalise groups, AddState, balances, code, flush/commit, reopen, rollback) and TLC validates the recorded answers against the ghost (verdict) and the layered model (drift) at every step.",
+   note="trusted: TLC, harness/cmd/ledgeradp decoding (nil and empty values conflated); account-cache eviction not reachable (compile-time LRU sizes)",
+   technique="TLA+ spec + TLC exhaustive MC of layered model vs. ghost; TLC trace validation of the real ledger"),
+ "C12": dict(engine="StateLedger", design_ref="DESIGN.md §3.2, §5 C12",
+   text="Same specification; C12_RollbackRestores / C12_Accepted / C12_Refused / C12_Version are checked by TLC on the model (rollback gate and database-at-head invariants) and on real traces that build chains crossing the 10-block journal window, roll back to every kind of target (inside, at the edge of, below the window, higher), continue differently and read everything back, with reopen in between.",
+   note="trusted: TLC, harness decoding; the combined Ledger.Rollback (state+chain) refusal clause is checked in the ChainLedger family",
+   technique="TLA+ spec + TLC exhaustive MC; TLC trace validation of the real ledger"),
+ "C10": dict(engine="StateLedger", design_ref="DESIGN.md §3.2, §5 C10",
+   text="The ghost carries an injective symbolic root (sequence of per-block change sets); on real traces TLC maintains the relation symbolic-root <-> real hash over ALL traces of a run and checks that it is functional (order / cache / reopen / revert-detour independence) and injective (sensitivity to any single changed value, balance, nonce, code, added or dropped key), using families of histories that realise the same or a minimally different change set.",
+   note="trusted: TLC, harness decoding, SHA-256 collision resistance; no-op overwrites are not judged; tx/receipt roots are checked in the ChainLedger family (recomputation) and Replicas family",
+   technique="TLA+ symbolic-root ghost; TLC trace validation over families of real histories"),
+ "C07": dict(engine="Exec", design_ref="DESIGN.md §3.7, §5 C07",
+   text="Exec.tla states C07 over observed blocks; the real executor (ledger+genesis+BlockExecutor in-process) executes seeded random blocks of every transaction kind while a sibling node executes the same blocks without the transactions that failed: TLC checks on every block that the state-store keys in which the two nodes differ are only the failed senders' and the admins' account records, that no failed transaction is announced as a valid delivery, and that view execution changes neither state nor chain meta.",
+   note="trusted: TLC, harness/core + harness/cmd/execadp decoding, determinism of the sibling node (checked: setups must be equal); EVM transactions not generated",
+   technique="TLA+ property formulas; differential real-code traces validated by TLC"),
+ "C08": dict(engine="Exec", design_ref="DESIGN.md §3.7, §5 C08",
+   text="The contract surface is enumerated by reflection on the live registered contracts (572 methods incl. promoted ones) and crossed with argument-shape classes; raw payload mutations, XVM, bad signatures, Stub method names are added. Every submitted block must come back with one receipt per transaction in order at the next height; a dead or wedged node (adapter process death, 60 s) is recorded as an event that violates C08_Alive. TLC validates every trace.",
+   note="trusted: TLC, harness; byte-level space sampled; transactions outside the admission domain (nil From/To) are not generated",
+   technique="TLA+ property formulas; structure-enumerated + random real-code traces validated by TLC"),
+ "C14": dict(engine="Exec", design_ref="DESIGN.md §3.7, §5 C14",
+   text="ExecMC.tla model-checks the value-movement design (transfer, fee, pay-left-as-fee, admin split) exhaustively for small balances: no creation, rounding loss < #admins per transaction, no negative balance. On real traces TLC checks per block that the sum of all account balances does not increase, no balance is negative, the loss is bounded by (#admins-1) per transaction, and on single-transaction blocks that a transfer moves exactly the stated amount / a failed one leaves the receiver untouched (amounts 0, 1, exact balance, balance+1, 2^63, 1e40, non-numeric, negative; self / admin / contract receivers; senders around each fee level; 3, 4 and 9 admins).",
+   note="trusted: TLC, harness decoding; documented admin grants are exercised in the Governance family",
+   technique="TLA+ spec + TLC exhaustive MC; TLC trace validation of the real executor"),
 }
 NOT_YET = "check not built yet (work in progress; see DESIGN.md build order)"
 
